@@ -4,7 +4,7 @@
   Request:  {"op":"c18","docs":[{"raw":…,"safe":bool?,"src":str?},…]}
   Answer:   {"ok":[R,…]} one per document, or {"err":…} when a document does not parse;
             R = {"tree": node,                      -- construct env raw
-                 "dump": {"raw": Raw} | {"err": "clearCrash"|"pathNoRef"|"noMetadataForm"|"safeTag"},
+                 "dump": {"raw": Raw} | {"err": "noMetadataForm"},
                  "tree2": node | {"err":…},         -- construct env (represent tree)       (when dump ok)
                  "dump2": {"raw": Raw} | {"err":…}} -- represent tree2                      (when tree2 ok)
             Raw is encoded in the request format (`s`/`q`/`m`, `t`, `kw`).
@@ -71,10 +71,7 @@ partial def rawJ : Raw → Json
   | .map t kw items => withTagKw t kw [("m", .arr (items.map (fun kv => Json.arr #[keyJ kv.1, rawJ kv.2])).toArray)]
 
 def dumpErrJ : DumpErr → Json
-  | .clearCrash => Json.mkObj [("err", .str "clearCrash")]
-  | .pathNoRef => Json.mkObj [("err", .str "pathNoRef")]
   | .noMetadataForm => Json.mkObj [("err", .str "noMetadataForm")]
-  | .safeTag => Json.mkObj [("err", .str "safeTag")]
 
 def dumpJ (n : Node) : Json :=
   match represent n with
